@@ -1,5 +1,6 @@
 import TakVerif.Proofs.Reach
 import TakVerif.Proofs.FromSquares
+import TakVerif.Proofs.Budget
 import TakVerif.Proofs.Examples
 
 /-! C01 — applying a move succeeds iff it is legal Tak and yields the exact successor.
@@ -54,6 +55,37 @@ field).  Since both sides are functions, this is "succeeds iff legal".  `StackLi
 rule book accepts (result stacks ≤ 64 pieces); rejections need no such assumption. -/
 theorem move_refines : move_refines_statement :=
   fun _ _ m hA hwf hp hlim => move_refines_core hA hwf m hp hlim
+
+/-- "succeeds exactly when legal": under the hypotheses of `move_refines` the model accepts iff the rule book does -/
+theorem move_ok_iff (hA : AnalyzeTotal) (basis : Array W) (p : Pos) (m : Move) (hwf : WF basis p)
+    (hp : m.type ≠ Facts.mtPass) (hlim : StackLimit p m) :
+    (∃ q, p.apply basis m = .ok q) ↔ (Spec.step (Spec.abs p) (Spec.decode m)).isSome = true := by
+  have h := move_refines basis p m hA hwf hp hlim
+  cases ha : p.apply basis m with
+  | error e => rw [ha] at h; simp only at h; rw [h]; simp
+  | ok q => rw [ha] at h; simp only at h; rw [h.1]; simp
+
+/-- **the stack limit is automatic when the game has at most 64 pieces**: `budget s` = pieces on the board +
+pieces in reserve never increases under legal moves (`step_budget`), and no stack is higher than the number of
+pieces on the board. -/
+theorem stack_limit_of_budget (p : Pos) (m : Move) (hb : budget (Spec.abs p) ≤ 64) : StackLimit p m :=
+  stackLimit_of_budget m hb
+
+/-- **reachable positions of the default 3×3 … 6×6 games** (≤ 62 pieces): every sequence of non-pass move values from
+the start position keeps model and rule book in step and every position met is well-formed — no stack-limit
+hypothesis left. -/
+theorem reachable_default (hA : AnalyzeTotal) (basis : Array W) (size : Nat) (bwt : Bool) (p : Pos) (ms : List Move)
+    (hs : size ≤ 6) (h0 : Pos.new ⟨size, 0, 0, bwt⟩ = .ok p) (hnp : ∀ m ∈ ms, m.type ≠ Facts.mtPass) :
+    match p.applyAll basis ms with
+    | .error _ => stepAll (Spec.abs p) (ms.map Spec.decode) = none
+    | .ok q => stepAll (Spec.abs p) (ms.map Spec.decode) = some (Spec.abs q) ∧ WF basis q :=
+  have hwf := Tak.new_wf basis h0
+  applyAll_refines hA ms hwf
+    (movesOK_of_budget hA ms hwf (Nat.le_trans (new_budget_default size bwt p hs h0) (by decide)) hnp)
+
+example : Pos.new ⟨5, 0, 0, false⟩ = .ok Ex.start5 ∧ (∀ m ∈ Ex.moves, m.type ≠ Facts.mtPass) ∧
+    Ex.start5.applyAll Ex.basis Ex.moves = .ok Ex.after :=
+  ⟨rfl, by decide, Ex.after_ok⟩
 
 /-- `New` builds a well-formed position for every accepted configuration (sizes 3..8, default or custom counts) -/
 theorem new_wf (basis : Array W) (cfg : Cfg) (p : Pos) (h : Pos.new cfg = .ok p) : WF basis p :=
